@@ -264,9 +264,17 @@ MUTANTS = [
     dict(prop="C18", name="tail-starts-at-target", file="fickling/cli.py",
          old="            for pickled in stacked_pickled[args.inject_target + 1 :]:",
          new="            for pickled in stacked_pickled[args.inject_target + 2 :]:"),
-    dict(prop="C18", name="range-test-gt", file="fickling/cli.py",
-         old="            if args.inject_target >= len(stacked_pickled):",
-         new="            if args.inject_target > len(stacked_pickled):"),
+    # ("range-test-gt", `>=` -> `>` in the range test, became equivalent with FX23: the target is
+    # looked up before anything is written, so target == n dies with IndexError, status 1, no output)
+    dict(prop="C18", name="preceding-pickles-written-before-the-injection(revert FX23)", file="fickling/cli.py",
+         old="""            pickled = stacked_pickled[args.inject_target]
+            if not isinstance(pickled[-1], fickle.Stop):""",
+         new="""            for before in stacked_pickled[: args.inject_target]:
+                before.dump(buffer)
+            stacked_pickled = stacked_pickled[args.inject_target :]
+            args.inject_target = 0
+            pickled = stacked_pickled[args.inject_target]
+            if not isinstance(pickled[-1], fickle.Stop):"""),
     dict(prop="C18", name="var-id-not-threaded", file="fickling/cli.py",
          old="                var_id = interpreter.next_variable_id",
          new="                var_id = 0"),
@@ -283,6 +291,12 @@ MUTANTS = [
                 stacked_pickled[0].dump(sys.stdout.buffer)
                 sys.stderr.write("""),
     # ---- C11
+    dict(prop="C11", name="extension-cache-kept(revert FX24)", file="fickling/ml.py",
+         old="        copyreg._extension_cache.clear()\n        return super().load()",
+         new="        return super().load()"),
+    dict(prop="C07", name="extension-cache-kept(revert FX24)", file="fickling/ml.py",
+         old="        copyreg._extension_cache.clear()\n        return super().load()",
+         new="        return super().load()"),
     dict(prop="C11", name="shallow-copy(revert FX8)", file="fickling/ml.py",
          old="        self.allowlist = {module: dict(names) for module, names in ML_ALLOWLIST.items()}",
          new="        self.allowlist = dict(ML_ALLOWLIST)"),
